@@ -226,6 +226,9 @@ def dump_smt(goto, unwind, smt, timeout, unwinding_assertions=True):
     if os.path.exists(smt):
         os.remove(smt)
     rc, out, secs = sh(cmd, timeout=timeout)
+    if rc not in (0, 10):
+        # killed by the time or memory cap (possibly while writing the file): no verdict, not a machinery error
+        return 'resource', f'cbmc ended with status {rc} after {secs:.0f} s (cap {timeout} s, {MEM_KB // 1024 // 1024} GB): ' + out[-300:], secs
     if not os.path.exists(smt):
         # no VCCs at all is also possible ("VERIFICATION SUCCESSFUL" without a solver call)
         if 'VERIFICATION SUCCESSFUL' in out:
